@@ -207,6 +207,12 @@ def _boundary():
         for seq in itertools.product(["e emit id 1 1", "e emit id 7 0", "e emit msg 0900 0", "e emit none 0", "e hash 0000 1", "e fini", "e ctx", "e rc on"], repeat=2):
             out.append(("b:ctx:%s:%s" % (new, "/".join(s[2:] for s in seq)),
                         ["e new " + new, "e set 1", "e ctx"] + list(seq) + ["e fini", "e emit id 1 0", "e emit id 7 1", "e set 2", "e emit id 2 1", "e ctx", "e emit id 9 0", "e fini"]))
+    # message events in an event structure that was used before (its id field is still set): the first byte decides
+    for new in ("fb", "nofb", "builtin"):
+        for stale in (1, 2, 9, M64):
+            for seq in itertools.product(["e emit msg 01ff 1", "e emit msg 02 0", "e emit msg 0900 3", "e emit cmd 010061 1", "e emit msg - 1", "e emit id 2 1", "e stale 0"], repeat=2):
+                out.append(("b:stale:%s:%d:%s" % (new, stale % 1000, "/".join(s[2:] for s in seq)),
+                            ["e new " + new, "e set 1", "e set 2", "e set %d" % HA, "e stale %d" % stale] + list(seq) + ["e emit none 0", "e fini"]))
     # known finding: an event reaches a reservation that is still outstanding
     out.append(("b:holdemit", ["e new nofb", "e set 5", "e holdemit 1"]))
     # the hash function itself: C string mode and counted mode
@@ -376,7 +382,7 @@ class _XX:
         out = []
         alpha = ["xe set 1", "xe set 2", "xe set 0", "xe clear 1", "xe clear 2", "xe get 1", "xe get 0", "xe setdef 1", "xe setdef 2", "xe setdef 0",
                  "xe seterr", "xe reserve 1", "xe emit id 1 1", "xe emit id 1 0", "xe emit id 2 3z", "xe emit id 5 0", "xe emit msg 01 1",
-                 "xe emit none 0", "xe emit none 1", "xe hash 000061 2", "xe set %d" % HA, "xe del", "xe emit cmd 010061 3", "xe emit cmd 0200 1", "xe rc on"]
+                 "xe emit none 0", "xe emit none 1", "xe hash 000061 2", "xe set %d" % HA, "xe del", "xe emit cmd 010061 3", "xe emit cmd 0200 1", "xe rc on", "xe stale 2"]
         for new in ("fb", "nofb", "builtin"):
             for ln in range(1, (2 if tier == "quick" else 3) + 1):
                 for combo in itertools.product(alpha, repeat=ln):
